@@ -249,6 +249,8 @@ let parse_op (a : string list) : op option =
   | "layout" :: _ -> Some OLayout
   | ["rt_newick"] -> Some ORtNewick
   | ["reparse"; k] -> Some (OReparse (nat k))
+  | ["cli_collapse"; thr; ex] -> Some (OCliCollapse (some_len thr, bool_of ex))
+  | "cli_remove" :: tips -> Some (OCliRemove (List.map some_str tips))
   | ["set_name"; i; nm] -> Some (OSetName (nat i, some_str nm))
   | ["rename_by_name"; o; nm] -> Some (ORenameByName (some_str o, some_str nm))
   | ["set_pedge"; i; e] -> Some (OSetPedge (nat i, dec_len e))
